@@ -141,6 +141,8 @@ Float = ScalarType(
 def _parse_string(value: Any) -> str:
     if isinstance(value, (list, tuple)):
         raise ValueError('String cannot represent list value "%s"' % value)
+    if isinstance(value, dict):
+        raise ValueError('String cannot represent object value "%s"' % value)
     return str(value)
 
 
@@ -165,7 +167,13 @@ String = ScalarType(
     parse_literal=_coerce_string_node,
 )  # type: ScalarType
 
-_coerce_id_node = _typed_coerce(str, _ast.StringValue, _ast.IntValue)
+def _parse_id(value: Any) -> str:
+    if isinstance(value, (list, tuple, dict)):
+        raise ValueError('ID cannot represent value "%s"' % (value,))
+    return str(value)
+
+
+_coerce_id_node = _typed_coerce(_parse_id, _ast.StringValue, _ast.IntValue)
 
 
 ID = ScalarType(
@@ -179,7 +187,7 @@ ID = ScalarType(
         "an ID."
     ),
     serialize=str,
-    parse=str,
+    parse=_parse_id,
     parse_literal=_coerce_id_node,
 )
 
